@@ -18,8 +18,8 @@ var initOnce sync.Once
 func InitGrol(cfg *extensions.Config) {
 	initOnce.Do(func() {
 		debug.SetMemoryLimit(1 << 30) // like GOMEMLIMIT=1GiB: the memory guard of the interpreter needs a limit to work
-		log.SetLogLevelQuiet(log.Fatal)
 		log.SetOutput(io.Discard)
+		log.SetLogLevelQuiet(log.Critical)
 		log.Config.ConsoleColor = false
 		if cfg == nil {
 			cfg = &extensions.Config{HasLoad: false, HasSave: false, UnrestrictedIOs: false}
